@@ -25,8 +25,7 @@ MIRRORED = [('mitxgraders/stringgrader.py', 'StringGrader.clean_input'),
             ('mitxgraders/baseclasses.py', 'ItemGrader.__call__'),
             ('mitxgraders/baseclasses.py', 'ItemGrader.check'),
             ('mitxgraders/baseclasses.py', 'AbstractGrader.__call__')]
-REFUTED = ['C18_validation_fullmatch_refuted', 'C18_validation_fullmatch_refuted_trailing_caret',
-           'C18_validation_refusal_refuted_normal_mode']
+REFUTED = []
 TRUSTED = [
     'translator translate/strgrader.py (typed, white-listed Python ast -> Gallina; fails closed)',
     'correspondence harness harness/props/c18.py: strings enter Coq as code-point lists, grades as exact rationals; '
@@ -80,7 +79,7 @@ Definition outcome_agree (o : outcome) (b : obs) : bool :=
 Definition pattern_ok (cfg : config) : bool :=
   match cfg_validation_pattern cfg with
   | None => true
-  | Some p => pattern_supported p && pattern_supported (test_pattern p)
+  | Some p => pattern_supported p
   end.
 (* grader(None, s): StringGrader.__call__ (regenerated) -> ItemGrader.__call__/check (model) -> check_response (regenerated) *)
 Definition gen_call (cfg : config) (configured : option (str * entry)) (s : str) : outcome :=
@@ -106,8 +105,6 @@ Definition regex_case (c : str * str * bool * bool) : bool :=
 
 FLAGS = list(itertools.product([False, True], repeat=4))        # case_sensitive, strip, strip_all, clean_spaces
 FLAG_NAMES = ('case_sensitive', 'strip', 'strip_all', 'clean_spaces')
-KNOWN_ALT = 'validation_pattern-top-level-alternation-not-fullmatch'
-KNOWN_CARET = 'validation_pattern-trailing-caret-not-fullmatch'
 
 
 # ------------------------------------------------------------------------------------------------
@@ -294,42 +291,10 @@ def judge(case, obs):
     return (None if ok else 'must be refused with %s but got %r' % (names[how], obs)), d
 
 
-def finding_of(case, obs):
-    """narrow characterisation of the two known ways the validation call site fails to be a full match"""
-    p = case['config'].get('validation_pattern')
-    if p is None:
-        return None
-    flags = tuple(case['config'].get(k, d) for k, d in zip(FLAG_NAMES, (True, True, False, True)))
-    S = normal_forms(flags, case['sub'])
-    if len(S) != 1:
-        return None
-    x = next(iter(S))
-    # the observed outcome must be exactly what the property demands of the same grader WITHOUT the pattern, i.e. the
-    # only thing that went wrong is that validation let the submission through
-    nopat = dict(case, config={k: v for k, v in case['config'].items() if k != 'validation_pattern'})
-    if judge(nopat, obs)[0] is not None or demand(nopat)[0] == 'skip':
-        return None
-    try:
-        if re.fullmatch(p, x) is not None:
-            return None
-        if p.endswith('^'):
-            # the end anchor is not appended at all: the pattern is used as a prefix match
-            return KNOWN_CARET if re.match(p, x) is not None else None
-        # the appended "$" binds to the last top-level alternative only
-        if top_level_bar(p) and re.match(p + '$', x) is not None and re.match('(?:' + p + ')$', x) is None:
-            return KNOWN_ALT
-    except re.error:
-        return None
-    return None
-
-
 def witness(case, obs, what, d):
     w = {'key': 'call:%r/%r/%r' % (sorted(case['config'].items(), key=repr), case.get('expect'), case['sub']),
          'kind': case['kind'], 'config': case['config'], 'expect': case.get('expect'), 'sub': case['sub'],
          'observed': list(obs), 'demanded': list(d), 'what': what}
-    f = finding_of(case, obs)
-    if f:
-        w['finding'] = f
     return w
 
 
@@ -897,8 +862,6 @@ def run(ctx):
         secs[fn.__name__] = round(time.time() - t0, 1)
     res.distribution['seconds'] = secs
     res.distribution['scale'] = scale
-    # witnesses that do not fit the narrow characterisation of a recorded defect are reported first
-    res.witnesses.sort(key=lambda w: w.get('finding') is not None)
     return res
 
 
@@ -918,20 +881,22 @@ def replay(w):
 
 
 def classify_known(w, known):
-    ids = {e.get('id') for e in known}
-    f = w.get('finding')
-    return f if f in ids else None
+    """no defect of this property is currently recorded as known: every witness is a violation.
+    (The validation-pattern defects of the snapshot -- 'a|b' accepting 'ab', a pattern ending in '^' accepting anything --
+    were repaired by /repo commit 976ea10; their witnesses stay in PATTERNS as ordinary cases that must pass.)"""
+    return None
 
 
 LEVEL_TEXT = ('Theorems for strings of any length over all code points and all 16 flag combinations: the cleaning pipeline '
               '(regenerated from stringgrader.py on every run) equals a declarative normaliser (tab, CR, LF, CRLF, LFCR -> one space '
               'each; fold iff not case_sensitive; trim iff strip; delete spaces iff strip_all; squeeze runs iff clean_spaces), is '
-              'idempotent, never alters a non-whitespace character other than by folding; a submission is credited iff it equals '
-              'the expected string after cleaning; accept_any/accept_nonempty accept exactly the submissions meeting min_length '
-              '(>= 1 for accept_nonempty) and min_words and refuse the others as explain_minimums says; a failed validation is '
-              'refused as explain_validation says in every mode. The full-match claim for validation_pattern is REFUTED for the '
-              'code as written (pattern "a|b" accepts "ab"; pattern "^" accepts anything) and proved for every pattern without a '
-              'top-level alternation bar that does not end in "^".')
+              'idempotent, never alters a non-whitespace character other than by folding, ignores outer whitespace iff strip, every '
+              'space iff strip_all, repeated spaces iff clean_spaces; a submission is credited iff it equals the expected string '
+              'after cleaning; accept_any/accept_nonempty accept exactly the submissions meeting min_length (>= 1 for '
+              'accept_nonempty) and min_words and refuse the others as explain_minimums says; for every validation pattern of the '
+              'modelled regex subset and in every mode the response is refused as explain_validation says iff the pattern does not '
+              'match the entire cleaned submission (full-strength since /repo commit 976ea10; the former refutation witnesses are '
+              'regression examples).')
 LEVEL_NOTE = ('str.lower/isspace and re character classes are table parameters (hypotheses checked over all of Unicode each run); '
               'Python re replaced by a regex model (parser from text + matcher proved equivalent to an inductive match relation), '
               'compared with re on every run; trusted: Coq kernel, translate/strgrader.py, harness/props/c18.py; no axioms.')
